@@ -19,6 +19,7 @@ VARIANTS = [
     V("decode-off-by-one", E, "        return self._tags[index]", "        return self._tags[index - 1]", "R19.1"),
     V("num-classes-plus-one", E, "        self.num_classes = len(tags)", "        self.num_classes = len(tags) + 1", "R19.1"),
     V("new-tag-field-not-in-key", D + "tags.py", "    value: str = Field(\n        title=\"Value\",", "    language: str = \"en\"\n\n    value: str = Field(\n        title=\"Value\",", "R19.1"),
+    V("term-no-longer-frozen(G.5)", "src/soundevent/data/terms.py", "    model_config = ConfigDict(frozen=True, extra=\"allow\")", "    model_config = ConfigDict(extra=\"allow\", validate_assignment=True)", "G.5"),
     # neutral
     V("N-hash-order", D + "tags.py", "        return hash((self.term, self.value))", "        return hash((self.value, self.term))", None),
     V("N-hash-term-label-field-derived", D + "features.py", "        return hash((self.term, self.value))", "        return hash((self.term.label, self.value))", None),
